@@ -210,7 +210,15 @@ pub fn second_value(kind: Kind) -> BoxedStrategy<f64> {
 }
 pub fn first_value(kind: Kind) -> BoxedStrategy<f64> {
     match kind {
-        Kind::Histo => prop_oneof![4 => -6.0..6.0f64, 1 => proptest::sample::select(vec![-1.0, 0.0, 2.5, -5.0, 5.0, 4.0, f64::NAN])].boxed(),
+        Kind::Histo => prop_oneof![
+            4 => -6.0..6.0f64,
+            1 => proptest::sample::select(vec![-1.0, 0.0, 2.5, -5.0, 5.0, 4.0, f64::NAN]),
+            // values at and next to the edges k/10 and -1 + 2k/3 of the with_const_width histograms
+            3 => (0u8..11, 0u8..3).prop_map(|(k, d)| { let e = k as f64 / 10.0; match d { 0 => e, 1 => crate::hist::next_up(e), _ => crate::hist::next_down(e) } }),
+            2 => (0u8..11, 0u8..3).prop_map(|(k, d)| { let e = 0.1 * k as f64; match d { 0 => e, 1 => crate::hist::next_up(e), _ => crate::hist::next_down(e) } }),
+            1 => (0u8..4, 0u8..3).prop_map(|(k, d)| { let e = -1.0 + 2.0 * k as f64 / 3.0; match d { 0 => e, 1 => crate::hist::next_up(e), _ => crate::hist::next_down(e) } }),
+            2 => 0.0..1.0f64,
+        ].boxed(),
         _ => c01_value().boxed(),
     }
 }
